@@ -460,7 +460,9 @@ func TestCheck(t *testing.T) {
 	run.Bound("shapes", len(c.shapes))
 	run.Bound("escaping_alphabet", []string{`a"b`, `a\b`, "a\\n\\t\\rb", "a\\u0001\\u0000\\u001fb", "multi-byte UTF-8 incl. 4-byte, U+2028, <&>", `","k":"x","a":"x",... (looks like JSON structure)`})
 	run.Bound("type_condition_shapes", len(tcShapes()))
-	run.Bound("resolvable_option_variants", []string{"defaults (all shapes)", "vc = ApolloCompatibilityValueCompletionInExtensions (E, String, I)", "vc+tf = vc + ApolloCompatibilityTruncateFloatValues (Float)"})
+	run.Bound("resolvable_option_variants", []string{"defaults (all shapes)", "vc = ApolloCompatibilityValueCompletionInExtensions (E, String, I)", "vc+tf = vc + ApolloCompatibilityTruncateFloatValues (Float)", "tf = ApolloCompatibilityTruncateFloatValues alone (Float)"})
+	run.Bound("int_number_spellings", map[string][]string{"non-integral (ill-typed)": intNonIntegral, "integral (well-typed)": intIntegral})
+	run.Bound("float_number_spellings", floatSpellings)
 	run.Bound("siblings", "k: String before, z: String! after the field under test")
 	if maxDev < 2 {
 		run.Bound("quick_sibling_slice", "pairs {null, one wrong kind per node kind} at/below the field under test x {null, number-for-string} at z and number-for-string at k, for the siblings of the same and of later list elements")
